@@ -990,15 +990,114 @@ def _to_model_ops(c):
     return ops
 
 
+# file-system layouts of the configured path (case field "layout"; absent = a plain file in a plain directory,
+# absolute path).  The history stays a history of the model: "this content with this mtime becomes visible at the
+# configured path" / in-place rewrite / touch / "nothing is visible at the path"; the layout decides by which
+# file-system operations the harness brings that about.  What is visible at the path is always read back with
+# os.stat(path) / open(path) (following links), never assumed.
+#   flink      the path is a symbolic link to a file in another directory (at first to a file that does not exist
+#              yet); new content arrives by atomic_write(path) - which replaces the LINK by a regular file -,
+#              in-place rewrites and touches go through the link; delete = unlink of whatever stands at the path
+#   flink-sw   the same link, switched atomically to a new version file for every new content (symlink under a
+#              temporary name + rename over the path); delete = the link is switched to a name that does not exist
+#   dlink      a parent directory of the path is a symbolic link (releases/current -> rel0); everything goes through it
+#   dlink-sw   the directory link is switched atomically to a new release directory holding the new file
+#              (ConfigMap / "releases/current" style); delete = switched to a release without the file
+#   dren       plain directories, new content arrives by renaming a prepared directory into place
+#   rel, rel:<layout>   the configured path is RELATIVE (to the directory that holds the layout); the working
+#              directory stays the same from construction to the last observation
+LAYOUTS = ("flink", "flink-sw", "dlink", "dlink-sw", "dren", "rel", "rel:dlink-sw", "rel:flink")
+_LAYOUT_KINDS = ("plain", "flink", "flink-sw", "dlink", "dlink-sw", "dren")
+
+
+class _Layout:
+    def __init__(self, kind, sub, name):
+        kind = kind or "plain"
+        self.rel = kind == "rel" or kind.startswith("rel:")
+        self.kind = "plain" if kind == "rel" else kind[4:] if kind.startswith("rel:") else kind
+        if self.kind not in _LAYOUT_KINDS:
+            raise ValueError("unknown layout %r" % (kind,))
+        self.sub, self.name, self.n, self.cwd = sub, name, 0, None
+        j = os.path.join
+        if self.kind in ("flink", "flink-sw"):
+            os.mkdir(j(sub, "store"))
+            os.symlink(j("store", "v0-" + name), j(sub, name))
+            p = j(sub, name)
+        elif self.kind in ("dlink", "dlink-sw"):
+            os.mkdir(j(sub, "rel0"))
+            os.symlink("rel0", j(sub, "current"))
+            p = j(sub, "current", name)
+        elif self.kind == "dren":
+            os.mkdir(j(sub, "live"))
+            p = j(sub, "live", name)
+        else:
+            p = j(sub, name)
+        self.switching = self.kind in ("flink-sw", "dlink-sw", "dren")
+        if self.rel:
+            self.cwd = os.getcwd()
+            os.chdir(sub)
+            p = os.path.relpath(p, sub)
+        self.path = p          # the configured path: what the source, atomic_write and the observer are given
+
+    def close(self):
+        if self.cwd is not None:
+            os.chdir(self.cwd)
+            self.cwd = None
+
+    @staticmethod
+    def _file(p, data, mtime):
+        with open(p, "wb") as f:
+            f.write(data.encode())
+        os.utime(p, ns=(mtime, mtime))
+
+    def _switch(self, target, link):
+        tmp = os.path.join(self.sub, ".switch.tmp")
+        os.symlink(target, tmp)
+        os.rename(tmp, link)   # rename(2): replaces the link itself, atomically
+
+    def publish(self, data, mtime):
+        """switching layouts: `data` with `mtime` becomes what is visible at the configured path (None: nothing is)."""
+        self.n += 1
+        j, sub, name, n = os.path.join, self.sub, self.name, self.n
+        if self.kind == "flink-sw":
+            tgt = j("store", ("v%d-" % n if data is not None else "gone%d-" % n) + name)
+            if data is not None:
+                self._file(j(sub, tgt), data, mtime)
+            self._switch(tgt, j(sub, name))
+        elif self.kind == "dlink-sw":
+            r = "rel%d" % n
+            os.mkdir(j(sub, r))
+            if data is not None:
+                self._file(j(sub, r, name), data, mtime)
+            self._switch(r, j(sub, "current"))
+        elif self.kind == "dren":
+            os.mkdir(j(sub, "next"))
+            if data is not None:
+                self._file(j(sub, "next", name), data, mtime)
+            os.rename(j(sub, "live"), j(sub, "old%d" % n))
+            os.rename(j(sub, "next"), j(sub, "live"))
+        else:
+            raise AssertionError(self.kind)
+
+
 def _run_seq_impl(c, d, uniq):
     """Runs the history on the real source; returns (model ops with Q resolved, observations).
     An observation: dict(kind, value, disk=(bytes|None, mtime|None))."""
+    sub = os.path.join(d, "s%d" % uniq)
+    os.mkdir(sub)
+    lay = _Layout(c.get("layout"), sub, c["name"])
+    try:
+        return _run_seq_body(c, lay)
+    finally:
+        lay.close()
+        shutil.rmtree(sub, ignore_errors=True)
+
+
+def _run_seq_body(c, lay):
     from rbacx.store.file_store import FilePolicySource, atomic_write
 
     cs = _seq_contents(c)
-    sub = os.path.join(d, "s%d" % uniq)
-    os.mkdir(sub)
-    path = os.path.join(sub, c["name"])
+    path = lay.path
     src = FilePolicySource(path, include_mtime_in_etag=bool(c.get("incl")), validate_schema=bool(c.get("validate")),
                            **({"chunk_size": c["chunk"]} if c.get("chunk") else {}))
     mops = _to_model_ops(c)
@@ -1018,7 +1117,11 @@ def _run_seq_impl(c, d, uniq):
     def apply(w):
         """perform the model world-op w on the disk; returns w (resolved)."""
         k = w[0]
-        if k == "atomic":
+        if k == "atomic" and lay.switching and w[4][4] != "f":
+            lay.publish(w[1], w[2])
+        elif k == "del" and lay.switching:
+            lay.publish(None, None)
+        elif k == "atomic":
             fail = w[4][4] == "f"
             if fail:
                 def boom(*a, **kw):
@@ -1154,7 +1257,6 @@ def _run_seq_impl(c, d, uniq):
     info["states"] = states
     info["calls"] = calls
     info["nonquiet"] = nonquiet
-    shutil.rmtree(sub, ignore_errors=True)
     return out_ops, obs, info
 
 
@@ -1241,8 +1343,10 @@ def _judge_seq(chk, c, mops, obs, m, info=None):
     fam = c.get("fam", "seq")
     fmt = _expected_format(c["name"])
     n_mod = sum(1 for o in mops if o[0] == "w" and o[1][0] != "none")
-    chk.mark((fam, c["name"], incl, bool(c.get("validate")), json.dumps(c["ops"]), json.dumps(c.get("contents"))),
-             bool(obs) and n_mod > 0)
+    chk.mark((fam, c["name"], incl, bool(c.get("validate")), json.dumps(c["ops"]), json.dumps(c.get("contents")))
+             + ((c["layout"],) if c.get("layout") else ()), bool(obs) and n_mod > 0)
+    if c.get("layout"):
+        chk.count(f"{fam}:layout:" + c["layout"])
     chk.count(f"{fam}:len{min(len(c['ops']), 8)}")
     chk.count(f"{fam}:hyp_{'holds' if m['hyp'] else 'fails'}")
     chk.count(f"{fam}:ext:" + os.path.splitext(c["name"])[1].lower())
@@ -1383,6 +1487,18 @@ def _same_doc(a, b):
         return repr(a[1]) == repr(b[1])
 
 
+def _rotation():
+    """-> rot(configs): the next (layout, config) pair; consecutive calls walk through all layouts, then move on
+    to the next config."""
+    i = [0]
+
+    def rot(configs):
+        k = i[0]
+        i[0] += 1
+        return LAYOUTS[k % len(LAYOUTS)], configs[(k // len(LAYOUTS)) % len(configs)]
+    return rot
+
+
 def gen_seq(chk):
     rng = chk.rng
     cases = []
@@ -1392,6 +1508,8 @@ def gen_seq(chk):
     alpha1 = ["Wa", "Wb", "Wc", "Q", "T", "D", "E", "L"]
     n1 = 4 if quick else 5
     configs = [(ext, incl) for ext in (".json", ".yaml", ".yml") for incl in (False, True)]
+    rot = _rotation()
+    h = 0
     for n in range(1, n1 + 1):
         for seq in itertools.product(alpha1, repeat=n):
             if "E" not in seq and "L" not in seq:
@@ -1400,6 +1518,17 @@ def gen_seq(chk):
                 continue  # a trailing modification is observed by nobody
             for ci, (ext, incl) in enumerate(configs):
                 cases.append({"fam": "seq", "name": "p" + ext, "incl": incl, "ops": list(seq)})
+            # the same history on the other layouts of the configured path (links, switched links, renamed
+            # directories, relative path): thorough - every layout for histories up to length 4, one (rotating) for
+            # length 5; quick - one rotating layout for every history up to length 3 and every second one of length 4
+            h += 1
+            if quick:
+                k_lay = 1 if (n <= 3 or h % 2 == 0) else 0
+            else:
+                k_lay = len(LAYOUTS) if n <= 4 else 1
+            for _ in range(k_lay):
+                lay, (ext, incl) = rot(configs)
+                cases.append({"fam": "seq", "name": "p" + ext, "incl": incl, "ops": list(seq), "layout": lay})
     # 2. restores with a preserved mtime, in-place rewrites, failed atomic writes, and etag() calls during which
     #    the file changes between the stat and the read
     alpha2 = ["Ra", "Rb", "Ib", "Fc", "D", "E", "E:Ra", "E:Rb", "E:D", "E:Q", "L"]
@@ -1410,6 +1539,10 @@ def gen_seq(chk):
                 continue
             for ci, (ext, incl) in enumerate([(".json", False), (".yaml", True)]):
                 cases.append({"fam": "seq", "name": "p" + ext, "incl": incl, "ops": list(seq)})
+            h += 1
+            for _ in range((1 if (n <= 2 or h % 3 == 0) else 0) if quick else 2):
+                lay, (ext, incl) = rot([(".json", False), (".yaml", True), (".yml", False), (".json", True)])
+                cases.append({"fam": "seq", "name": "p" + ext, "incl": incl, "ops": list(seq), "layout": lay})
     # 2b. tiny hashing chunk sizes (the read loop of _hash_file): A and B differ only in their 21st byte
     alpha2b = ["Ia", "Ib", "Ic", "T", "E"]
     for n in range(2, 5):
@@ -1428,6 +1561,14 @@ def gen_seq(chk):
         cases.append({"fam": "seq", "name": "p" + rng.choice([".json", ".yaml", ".yml", ".YAML", ".txt"]),
                       "incl": rng.random() < 0.5, "ops": [rng.choice(alpha3) for _ in range(n)],
                       "contents": {"d": extra}, "chunk": rng.choice([None, None, 1, 7, 64])})
+    # 3b. the same kind of history on the other layouts (generated after 3 so that its cases stay as they were)
+    for _ in range(300 if quick else 8000):
+        n = rng.randint(5, 14)
+        extra = rng.choice(DOC_POOL)
+        cases.append({"fam": "seq", "name": "p" + rng.choice([".json", ".yaml", ".yml", ".YAML", ".txt"]),
+                      "incl": rng.random() < 0.5, "ops": [rng.choice(alpha3) for _ in range(n)],
+                      "contents": {"d": extra}, "chunk": rng.choice([None, None, 1, 7, 64]),
+                      "layout": rng.choice(LAYOUTS)})
     return cases
 
 
@@ -1468,12 +1609,20 @@ def gen_incall(chk):
         changes += ["Ra", "Wa", "Fc"]
         posts += [["E", "Rb", "E"], ["D", "E", "Ra", "E"], ["E@1:Ra", "E"]]
     configs = [(".json", False), (".json", True)] + ([(".yaml", False), (".yml", True)] if thorough else [])
+    rot = _rotation()
+    h = 0
     for pre in pres:
         for k in range(1, K + 2):
             for x in changes:
                 for post in posts:
                     for ext, incl in configs:
                         cases.append({"fam": "seq", "name": "p" + ext, "incl": incl,
+                                      "ops": pre + ["E@%d:%s" % (k, x)] + post})
+                    # on another layout of the configured path (thorough: each history, quick: every 5th)
+                    h += 1
+                    if thorough or h % 5 == 0:
+                        lay, (ext, incl) = rot(configs)
+                        cases.append({"fam": "seq", "name": "p" + ext, "incl": incl, "layout": lay,
                                       "ops": pre + ["E@%d:%s" % (k, x)] + post})
     # several reads per hash: a change between two chunk reads
     for chunk in (5, 22):
@@ -1489,6 +1638,11 @@ def gen_incall(chk):
         n = rng.randint(4, 10)
         cases.append({"fam": "seq", "name": "p" + rng.choice([".json", ".yaml"]), "incl": rng.random() < 0.5,
                       "ops": [rng.choice(alpha) for _ in range(n)] + ["E"], "chunk": rng.choice([None, None, 7])})
+    for _ in range(1000 if thorough else 60):
+        n = rng.randint(4, 10)
+        cases.append({"fam": "seq", "name": "p" + rng.choice([".json", ".yaml"]), "incl": rng.random() < 0.5,
+                      "ops": [rng.choice(alpha) for _ in range(n)] + ["E"], "chunk": rng.choice([None, None, 7]),
+                      "layout": rng.choice(LAYOUTS)})
     return cases
 
 
@@ -1498,6 +1652,18 @@ def gen_doc(chk):
         for name in DOC_NAMES:
             cases.append({"fam": "doc", "name": name, "incl": bool(ci % 2), "validate": False,
                           "ops": ["L", "E", "Id", "E", "L", "T", "E", "L", "D", "L", "E"], "contents": {"d": content}})
+    # the other layouts of the configured path: the link / release file carries the same name (same extension);
+    # the document also arrives as a new file (Wd), not only by a rewrite in place
+    rot = _rotation()
+    h = 0
+    for ci, content in enumerate(DOC_POOL):
+        for name in DOC_NAMES:
+            h += 1
+            if chk.tier != "quick" or h % 4 == 0:
+                lay, (incl,) = rot([(False,), (True,)])
+                cases.append({"fam": "doc", "name": name, "incl": incl, "validate": False, "layout": lay,
+                              "ops": ["L", "E", "Wd", "E", "L", "T", "E", "L", "D", "L", "E", "Id", "L", "E", "Wa", "L"],
+                              "contents": {"d": content}})
     # schema validation on (one jsonschema run costs ~0.2 s inside load(), so few of them in the quick tier)
     vpool = DOC_POOL if chk.tier != "quick" else [A, C, "", "{}", "[]", "null", DOC_POOL[13], DOC_POOL[-1], '{"rules": ']
     for content in vpool:
